@@ -406,7 +406,8 @@ func (s *SimRemote) Mount(ctx context.Context, d ocispec.Descriptor, from string
 		return fmt.Errorf("%s mount node %d: %w", s.Name, n, errInjected)
 	}
 	err := s.Inner.(remoteInner).Mount(ctx, d, from, getContent)
-	if err == nil && k == "after" {
+	if k == "after" {
+		// also when the inner call only reported "try the next candidate": the fault counts as fired
 		err = fmt.Errorf("%s mount node %d (after effect): %w", s.Name, n, errInjected)
 	}
 	// a completed mount is a completed transfer: report it as a Push event too so
